@@ -71,6 +71,12 @@ CHECKS["C11"] = dict(
     text="For each bundled constructive policy x environment x small instance ALL complete feasible sequences are evaluated; their exp(log-likelihood) must sum to one, per-step values must equal an independent masked log-softmax of the decoder logits, and every trajectory the sampling / greedy / multistart decoders can emit under any multinomial answer must carry exactly the evaluate-mode log-likelihood, reward and entropy (PPO ratio 1).",
     ref="DESIGN.md section 4 C11",
 )
+CHECKS["C13"] = dict(
+    engine="E1 EnvExplorer + reference search over the complete scored tree",
+    technique="complete scored tree of the policy on each small instance (all feasible sequences with per-step log-probs) + plain reference beam search over it, compared with BeamSearch output for every width / select_best / batch layout",
+    text="For every small instance, beam width 2..#starts, select_best on/off and batch sizes 1-3 the returned beams must equal a reference beam search over the COMPLETE scored tree of the policy, be feasible paths of the tree with exactly the tree's per-step log-probs, be distinct when their forced starts are, and best-selection must return the maximum-reward beam; ties at the selection boundary are skipped and counted.",
+    ref="DESIGN.md section 4 C13",
+)
 
 NOT_YET = {}
 
